@@ -174,9 +174,12 @@ class MeshTet1(MeshSimplex, Mesh3D):
     def _adaptive_sort_mesh(self, p, t, marked):
         """Make (0, 1) the longest edge in t for marked."""
 
-        # add noise so that there are no edges with the same length
+        # add noise so that there are no edges with the same length; edge
+        # lengths depend neither on the position nor on the unit of the
+        # mesh, so the noise is added relative to the centred coordinates
         np.random.seed(1337)
-        p = p.copy() + 1e-10 * np.random.random(p.shape)
+        p = p - p.mean(axis=1)[:, None]
+        p = p + 1e-10 * np.abs(p).max() * np.random.random(p.shape)
 
         l01 = np.sqrt(np.sum((p[:, t[0, marked]] - p[:, t[1, marked]]) ** 2,
                              axis=0))
